@@ -23,6 +23,9 @@ FORMATS = {
                        cols=[("name", "id"), ("size", "int")]),
     "bedgraph": dict(buffer=("bionumpy.io.delimited_buffers", "BdgBuffer"),
                      cols=[("chromosome", "id"), ("start", "int"), ("stop", "int"), ("value", "float")]),
+    # wig files holding bedGraph lines (read through the buffer class that tolerates interior comment lines)
+    "wig": dict(buffer=("bionumpy.io.wig", "WigBuffer"),
+                cols=[("chromosome", "id"), ("start", "int"), ("stop", "int"), ("value", "float")]),
     # SAM: eleven fixed columns, the rest of the line (optional tags, TAB separated) is one field
     "sam": dict(buffer=("bionumpy.io.buffers.sam", "SAMBuffer"), rest="extra",
                 cols=[("name", "id"), ("flag", "int"), ("chromosome", "id"), ("position", "int"), ("mapq", "int"), ("cigar", "str"),
@@ -87,7 +90,11 @@ def declare_cells(V, skel, prefix="c"):
                 elif kind == "float":
                     # digits with exactly one '.' at a skeleton-chosen position (skel["dots"][r] or middle)
                     dot = skel.get("dot", {}).get(f"{r}_{c}", w // 2 if w >= 3 else None)
-                    if dot is not None and j == dot:
+                    lit = skel.get("literal_floats")
+                    if lit:                      # concrete text for the float cells (row r holds lit[r]): they pass through Python's float formatting
+                        V.literal_singletons = True
+                        v = V.int(nm, ord(lit[r][j]), ord(lit[r][j]))
+                    elif dot is not None and j == dot:
                         v = V.int(nm, 46, 46)
                     elif j == skel.get("exp", {}).get(f"{r}_{c}", -1):       # scientific notation: the exponent mark at this position
                         v = V.int(nm, 101, 101)
